@@ -117,7 +117,32 @@ def scanner(name, extra_mod=()):
         if self._tokens else True))
     c.ens("O4-token-start-never-moves-back", lambda self, old: le(old.self._curtokenpos, self._curtokenpos) if name != "_parse_main" else True)
     c.ens("mode-is-a-scanner", lambda self: mode(self) in RANK)
+    # the representation invariant that the digit-collecting states assume on entry is re-established whenever such a state is the next one:
+    # at most 3 octal digits in `oct` (so int(oct, 8) cannot fail), at most 2 hexadecimal digits in `hex`
+    c.ens("digit-buffer-invariant-of-the-next-state", lambda self: (
+        _digits_inv(self.f.get("oct"), OCTD, 3) if mode(self) == "_parse_string_1"
+        else _digits_inv(self.f.get("hex"), HEXD, 2) if mode(self) == "_parse_literal_hex" else True))
+    # likewise the two other assumptions every scanner makes about the state it is entered in
+    c.ens("string-depth-invariant-of-the-next-state", lambda self: (
+        (self.f.get("paren") is not None and le(1, self.f.get("paren"))) if mode(self) in ("_parse_string", "_parse_string_1", "_parse_string_2") else True))
+    c.ens("token-start-not-after-the-cursor-for-the-next-call", lambda self, result: (
+        le(self._curtokenpos, self.bufpos + result) if mode(self) != "_parse_main" else True))
     return c
+
+
+def _digits_inv(x, pred, maxn):
+    if x is None:
+        return False
+    if isinstance(x, (bytes, bytearray)):
+        return len(x) <= maxn and all(bool(pred_concrete(pred, b)) for b in x)
+    return And(le(ln(x), maxn), ForAllInt(0, ln(x), lambda t: pred(at(x, t)), "t"))
+
+
+def pred_concrete(pred, b):
+    r = pred(b)
+    if isinstance(r, bool):
+        return r
+    return z3.is_true(z3.simplify(to_z3(r)))
 
 
 def first_delim(s, i, j, cls):
